@@ -345,6 +345,11 @@ def both_paths(q, m, **kw):
     return fast, slow
 
 
+def asks_h0(q):
+    """the query has an atom that constrains implicit hydrogens and allows 0 (where the known finding hydrogens-none shows)"""
+    return any(0 in (getattr(a, 'implicit_hydrogens', ()) or ()) for a in q._atoms.values())
+
+
 def as_set(maps):
     return {frozenset(d.items()) for d in maps}
 
@@ -387,6 +392,12 @@ def molecules(rng, tier):
             continue
         if rng.random() < .5:
             m = corpus.renumber(m, rng)
+        if rng.random() < .5:
+            try:
+                m.kekule()
+                m.thiele()     # assigns the hydrogens of aromatic heteroatoms
+            except Exception:
+                pass
         out.append(('corpus', s, m))
     return out
 
@@ -503,6 +514,7 @@ def corr_atoms(ck, rng, mod, lay):
         aterms.extend(latom_term(a) for a in m._atoms.values())
     field_of_a = [frozenset(k for k in s) for s in aspecs]
     pair_cases, pair_meta = [], []
+    by_query = {}
     n_mismatch_inrange = 0
     n_field_pairs = sum(1 for _ in aspecs) * 0
     budget_rand = 4000 if ck.tier == 'quick' else 60000
@@ -538,8 +550,7 @@ def corr_atoms(ck, rng, mod, lay):
             for j in want:
                 oref = bool(qa == atoms[j])
                 omask = nums[j] in hit
-                pair_cases.append(f'pr {qi} {i + j} {b(oref)} {b(omask)}')
-                pair_meta.append((qi, i + j))
+                by_query.setdefault(qi, []).append((i + j, oref, omask))
                 nontrivial = oref or omask
                 ck.case(('pair', qi, i + j), nontrivial=nontrivial)
                 ck.count('atom pair: ' + ('match' if oref else 'no match'))
@@ -552,26 +563,50 @@ def corr_atoms(ck, rng, mod, lay):
                                       'the two real paths (transpiled .pyx first-atom test vs QueryXx.__eq__)',
                                       replay_py=REPLAY_PRE + f'q = synth_query([{qs!r}]); m = synth_mol([{aspecs[i + j]!r}]); '
                                                              f'print(list(q.get_mapping(m)), list(q.get_mapping(m, _cython=False)))')
+    # one Coq case per query atom: all its pairs (a list literal with thousands of `n%nat` indices elaborates quadratically)
+    for qi, l in by_query.items():
+        pair_cases.append(f'prs {qi} {lst([tup(zraw(j), b(r), b(k)) for j, r, k in l])}')
+        pair_meta.append(qi)
     extra = EXTRA + 'Definition QS : list qatom := ' + lst(qterms, per_line=1) + '.\n' + \
         'Definition AS : list latom := ' + lst(aterms, per_line=1) + '.\n' + \
         'Definition pr (i j : Z) (oref omask : bool) : bool :=\n' \
         '  let q := znth QS i (QMetal [] []) in let a := znth AS j (mkLA 0 None 0 false 0 0 None 0 []) in\n' \
-        '  Bool.eqb (match_atom q a) oref && Bool.eqb (mask_match_first (enc_qatom q None) (enc_atom a)) omask.\n'
-    ok1, failing1, log1 = coqcases.run_cases('c09_enc', 'PyBase', cases, extra=EXTRA, shard=12)
+        '  Bool.eqb (match_atom q a) oref && Bool.eqb (mask_match_first (enc_qatom q None) (enc_atom a)) omask.\n' \
+        'Definition prs (i : Z) (l : list (Z * bool * bool)) : bool := forallb (fun x => pr i (fst (fst x)) (snd (fst x)) (snd x)) l.\n'
+    mol_cases = [(c, mt) for c, mt in zip(cases, meta) if mt[0] == 'enc_mol']
+    q_cases = [(c, mt) for c, mt in zip(cases, meta) if mt[0] == 'enc_query']
+    ok1a, f1a, log1a = coqcases.run_cases('c09_encm', 'PyBase', [c for c, _ in mol_cases], extra=EXTRA, shard=2)
+    ok1b, f1b, log1b = coqcases.run_cases('c09_encq', 'PyBase', [c for c, _ in q_cases], extra=EXTRA, shard=400)
+    ok1, log1 = ok1a and ok1b, log1a + log1b
+    meta = [mt for _, mt in mol_cases] + [mt for _, mt in q_cases]
+    failing1 = list(f1a) + [len(mol_cases) + i for i in f1b]
     ck.oblige('correspondence: _cython_compiled_structure / _cython_compiled_query (all fields of the buffers, decoded with the '
               '.pyx struct layout) == enc_mol / enc_query on synthetic atoms sweeping every field', ok1 and not failing1,
               'correspondence', log1 or str([meta[i] for i in failing1[:5]]))
-    ok2, failing2, log2 = coqcases.run_cases('c09_pair', 'PyBase', pair_cases, extra=extra, shard=6000)
+    ok2, failing2, log2 = coqcases.run_cases('c09_pair', 'PyBase', pair_cases, extra=extra, shard=130)
+    if ok2 and failing2:
+        # second pass: which pairs of the failing query atoms
+        single, smeta = [], []
+        for k in failing2[:6]:
+            for j, r, o in by_query[pair_meta[k]][:150]:
+                single.append(f'pr {pair_meta[k]} {j} {b(r)} {b(o)}')
+                smeta.append((pair_meta[k], j))
+        _, f3, _ = coqcases.run_cases('c09_pair1', 'PyBase', single, extra=extra, shard=450)
+        bad_pairs = [smeta[i] for i in f3]
+    else:
+        bad_pairs = []
     ck.oblige('correspondence: QueryXx.__eq__ == match_atom and first-atom mask test of the transpiled .pyx == mask_match_first',
-              ok2 and not failing2, 'correspondence', log2 or str([pair_meta[i] for i in failing2[:5]]))
-    ck.extra['correspondence_cases_atoms'] = len(cases) + len(pair_cases)
-    ck.sample({'model_call': pair_cases[0], 'query_atom': qterms[pair_meta[0][0]], 'atom': aterms[pair_meta[0][1]]})
+              ok2 and not failing2, 'correspondence', log2 or str([(qatoms[q_][0], aspecs[a_]) for q_, a_ in bad_pairs[:5]]))
+    n_pairs = sum(len(v) for v in by_query.values())
+    ck.extra['correspondence_cases_atoms'] = len(cases) + n_pairs
+    if pair_cases:
+        ck.sample({'model_call': pair_cases[0][:300], 'query_atom': qterms[pair_meta[0]]})
     bad = []
     if not ok1 or failing1:
         bad += [repr(meta[i]) for i in failing1[:10]]
         ck.unchecked('correspondence enc_mol / enc_query vs isomorphism.py encoders (synthetic atoms)', log1[-1500:], bad)
     if not ok2 or failing2:
-        bad2 = [repr((qatoms[pair_meta[i][0]][0], aspecs[pair_meta[i][1]])) for i in failing2[:10]]
+        bad2 = [repr((qatoms[q_][0], aspecs[a_])) for q_, a_ in bad_pairs[:10]] or [repr(qatoms[pair_meta[k]][0]) for k in failing2[:10]]
         ck.unchecked('correspondence match_atom / mask_match_first vs __eq__ / .pyx (synthetic atoms)', log2[-1500:], bad2)
         bad += bad2
     # directed search around disagreeing cases: the property itself on those inputs
@@ -581,8 +616,10 @@ def corr_atoms(ck, rng, mod, lay):
             directed.append((meta[i][1], None))
         else:
             directed.extend((None, aspecs[k]) for k in range(meta[i][1], meta[i][2], 7))
-    for i in failing2[:40]:
-        directed.append((qatoms[pair_meta[i][0]][0], aspecs[pair_meta[i][1]]))
+    for q_, a_ in bad_pairs[:60]:
+        directed.append((qatoms[q_][0], aspecs[a_]))
+    if failing2 and not bad_pairs:
+        directed.extend((qatoms[pair_meta[k]][0], None) for k in failing2[:10])
     if directed:
         directed_atoms(ck, directed, qspecs, aspecs, mdl)
     return ok1 and ok2 and not failing1 and not failing2
@@ -670,12 +707,13 @@ def corr_pairs(ck, rng, mod, lay):
     cases, meta = [], []
     seen_mol, seen_q = set(), set()
     mismatches = []
-    n_pairs = 0
+    n_pairs = n_oracle = 0
     per_mol = 6 if ck.tier == 'quick' else 14
+    p_hit, p_empty = (.15, .015) if ck.tier == 'quick' else (1, .3)
     for kind, text, m in mols:
-        if any(a.implicit_hydrogens is None for a in m._atoms.values()):
-            ck.count('molecule with implicit_hydrogens None skipped (known finding hydrogens-none)')
-            continue
+        h_none = any(a.implicit_hydrogens is None for a in m._atoms.values())
+        if h_none:
+            ck.count('molecule with an atom whose implicit_hydrogens is None (raw aromatic heteroatom, valence error)')
         qs = [(s, q) for s, q in rng.sample(lib, min(per_mol, len(lib)))] if kind == 'corpus' else list(lib)
         if kind == 'corpus':
             for _ in range(3):
@@ -706,6 +744,16 @@ def corr_pairs(ck, rng, mod, lay):
                 if len(slow) > MAX_MAPPINGS:
                     ck.count('pair skipped: too many mappings')
                     continue
+                # the property-level oracle runs on every call; the model is evaluated on a sample of them
+                explained = h_none and asks_h0(q)
+                if as_set(fast) != as_set(slow):
+                    if explained:
+                        ck.count('divergence explained by the known finding hydrogens-none')
+                    else:
+                        mismatches.append((qtext, text, q, m, 'different sets of mappings from one component / scope call'))
+                n_oracle += 1
+                if rng.random() >= (p_hit if (slow or fast) else p_empty) and kind != 'corpus':
+                    continue
                 n_pairs += 1
                 cases.append(f'pair_ok {rq_term(comp, clo)} {rm} {lst(bits, lambda x: b(bool(x)))} {maps_term(fast, qnums)} {maps_term(slow, qnums)}')
                 meta.append(('pair', qtext, text, ci, sum(bits)))
@@ -713,9 +761,6 @@ def corr_pairs(ck, rng, mod, lay):
                 ck.count(f'search pair: {min(len(slow), 5)}{"+" if len(slow) >= 5 else ""} mappings, {len(comp)} query atoms'
                          if len(comp) <= 3 else f'search pair: {"some" if slow else "no"} mappings, 4+ query atoms')
                 ck.count('search pair with ring closures' if any(clo.get(e[0]) for e in comp) else 'search pair without ring closures')
-                # property-level oracle, independent of the model: same mappings, as a set (and here even as a sequence)
-                if as_set(fast) != as_set(slow):
-                    mismatches.append((qtext, text, q, m, 'different sets of mappings from one component / scope call'))
     for qtext, text, q, m, what in mismatches[:10]:
         report_pair(ck, qtext, text, q, m, what)
     ok, failing, log = coqcases.run_cases('c09_srch', 'PyBase', cases, extra=EXTRA, shard=40)
@@ -724,6 +769,7 @@ def corr_pairs(ck, rng, mod, lay):
               log or str([meta[i] for i in failing[:5]]))
     ck.extra['correspondence_cases_search'] = len(cases)
     ck.extra['search_pairs'] = n_pairs
+    ck.extra['component_scope_calls_compared'] = n_oracle
     if cases:
         k = next((i for i, x in enumerate(meta) if x[0] == 'pair' and 'Some [[' in cases[i]), 0)
         ck.sample({'model_call': cases[k][:600], 'meta': repr(meta[k])})
@@ -782,7 +828,7 @@ def report_pair(ck, qtext, text, q, m, what, kw=None):
 
 KNOWN_PROBES = [
     ('anymetal-rn', '[M]', '[Rn]', 'AnyMetal mask accepts radon (and Og through the Lv bit); AnyMetal.__eq__ rejects noble gases'),
-    ('hydrogens-none', '[C;h0]', 'CC(C)(C)(C)(C)C', 'implicit_hydrogens None (valence error) is encoded as 0 hydrogens'),
+    ('hydrogens-none', '[N;h0]', 'c1ccncc1', 'implicit_hydrogens None (aromatic heteroatom as parsed, valence error) is encoded as 0 hydrogens'),
     ('query-hydrogens-over-4', '[C;h0,h5]', '[C-4]', 'query hydrogens 5..14 alias the charge / radical bits'),
     ('query-isotope-offset', '[21C]', 'C', 'query isotope 9 above mdl_isotope lands on the "isotope not specified" bit'),
     ('query-isotope-offset-raises', '[30C]', 'C', 'query isotope >= 10 above (or > 54 below) mdl_isotope: the encoder raises'),
@@ -817,9 +863,13 @@ def search(ck, rng):
             m = smiles(s)
         except Exception:
             continue
-        if any(a.implicit_hydrogens is None for a in m._atoms.values()):
-            ck.count('search: molecule with implicit_hydrogens None skipped (known finding hydrogens-none)')
-            continue
+        if rng.random() < .5:
+            try:
+                m.kekule()
+                m.thiele()
+            except Exception:
+                pass
+        h_none = any(a.implicit_hydrogens is None for a in m._atoms.values())
         qs = rng.sample(lib, 8 if ck.tier == 'quick' else 25) + [('fragment', fragment_query(m, rng)) for _ in range(3)]
         for qt, q in qs:
             kw = rng.choice([{}, {}, {'automorphism_filter': False}, {'searching_scope': rng.sample(list(m._atoms), max(1, len(m) * 2 // 3))}])
@@ -831,6 +881,9 @@ def search(ck, rng):
             ck.case(('api', qt if qt != 'fragment' else str(q._atoms), s, tuple(sorted(kw))), nontrivial=bool(slow))
             ck.count('api search: ' + ('some mappings' if slow else 'no mapping') + (', ' + ','.join(kw) if kw else ''))
             if isinstance(fast, str) or as_set(fast) != as_set(slow):
+                if h_none and asks_h0(q) and not isinstance(fast, str):
+                    ck.count('api search: divergence explained by the known finding hydrogens-none')
+                    continue
                 report_pair(ck, qt if qt != 'fragment' else 'fragment ' + repr(q._atoms), s, q, m, 'different sets of mappings (public API)', kw)
     ck.extra['api_pairs'] = n_eval
     ck.extra['api_pairs_with_mappings'] = n_hit
@@ -855,7 +908,10 @@ def run(ck):
                         'query atoms (every class, every primitive value, subsets); pairs = same varied field + random; non-trivial = one of the '
                         'two paths matches. (b): seed molecules x the whole SMARTS library and corpus molecules x sampled SMARTS + fragment '
                         'queries, every component / scope call; non-trivial = at least one mapping. search: public API on corpus molecules.')
+    import time
+    t0 = time.time()
     proved = common.standard_proof_steps(ck, translators=['elements'])
+    ck.extra['phase_s'] = {'proof': round(time.time() - t0, 1)}
     rng = random.Random(ck.seed * 7919 + 9)
     try:
         mod = iso_pyx.inject()
@@ -875,8 +931,14 @@ def run(ck):
               f'{lay} vs {iso.m_atom_struct.format} {iso.q_atom_struct.format} {iso.bond_struct.format}')
     if not lay_ok:
         ck.unchecked('record layouts of isomorphism.py and _isomorphism.pyx differ', repr(lay))
+    t0 = time.time()
     tied1 = corr_atoms(ck, rng, mod, lay)
+    ck.extra['phase_s']['correspondence_atoms'] = round(time.time() - t0, 1)
+    t0 = time.time()
     tied2 = corr_pairs(ck, rng, mod, lay)
+    ck.extra['phase_s']['correspondence_search'] = round(time.time() - t0, 1)
+    t0 = time.time()
     search(ck, rng)
+    ck.extra['phase_s']['api_search'] = round(time.time() - t0, 1)
     ck.extra['proved'] = proved
     ck.extra['tied'] = bool(tied1 and tied2)
